@@ -1,6 +1,6 @@
 """C13 -- lifecycle: done is stable, run equals stepping, empty program is done, reload starts from reset memories."""
 from pyvc.api import *
-from fixedint import UInt32
+from fixedint import UInt32, UInt16
 from architecture_simulator.simulation.riscv_simulation import RiscvSimulation
 from architecture_simulator.simulation.toy_simulation import ToySimulation
 from architecture_simulator.simulation.runtime_errors import InstructionExecutionException
@@ -234,3 +234,24 @@ def canary_done():
     before = snapshot(sim, ignore=TIMER)
     sim.step()
     check_same("nothing_changes", before, snapshot(sim, ignore=TIMER))
+
+
+@unit("C13/toy/load_program-keeps-the-configured-memory-size")
+def toy_reload_sized():
+    """a TOY simulation configured with a smaller unified memory: the state handed to the assembler on (re)load is that of
+    a fresh simulation of the SAME configuration"""
+    from architecture_simulator.isa.toy.toy_parser import ToyParser
+    size = [64, 1000, 4096][split(sym_int("which_size", 0, 2))]
+    sim = ToySimulation(unified_memory_size=size)
+    sim.state.accu = sym_fixed("accu", UInt16)
+    seen = []
+
+    def probe(self_, program, state, **kw):
+        seen.append(snapshot(state, ignore=TIMER))
+    stub(ToyParser, "parse", probe)
+    sim.load_program("NOP")
+    unstub(ToyParser, "parse")
+    check("assembler_called_once", len(seen) == 1)
+    if len(seen) == 1:
+        check_same("state_equals_a_fresh_simulation_of_the_same_size", seen[0], snapshot(ToySimulation(unified_memory_size=size).state, ignore=TIMER))
+    check("address_range_is_the_configured_one", sim.state.memory.address_range.start == 0 and sim.state.memory.address_range.stop == size)
